@@ -172,5 +172,8 @@ func (p *Protocol) downloadBlockFromPeerOld(height int64, pid peer.ID) (*types.B
 	if !ok || blockData == nil || blockData.Block == nil {
 		return nil, fmt.Errorf("invalid block data in response")
 	}
+	if blockData.Block.GetHeight() != height {
+		return nil, fmt.Errorf("block height mismatch in response, want %d, got %d", height, blockData.Block.GetHeight())
+	}
 	return blockData.Block, nil
 }
